@@ -33,6 +33,35 @@ class Raised(Exception):
         self.what = what
 
 
+_LOCALS_CACHE: Dict[int, frozenset] = {}
+
+
+def _local_stores(fnode) -> frozenset:
+    """names bound by assignment somewhere in the function body (its
+    locals), nested functions excluded"""
+    k = id(fnode)
+    if k not in _LOCALS_CACHE:
+        out = set()
+        glob = set()
+        stack = list(fnode.body)
+        while stack:
+            n = stack.pop()
+            if isinstance(n, (ast.FunctionDef, ast.Lambda, ast.ClassDef)):
+                if isinstance(n, ast.FunctionDef):
+                    out.add(n.name)
+                continue
+            if isinstance(n, (ast.Global, ast.Nonlocal)):
+                glob |= set(n.names)
+            if isinstance(n, ast.Name) and isinstance(n.ctx, ast.Store):
+                out.add(n.id)
+            if isinstance(n, (ast.ListComp, ast.SetComp, ast.DictComp,
+                              ast.GeneratorExp)):
+                continue
+            stack.extend(ast.iter_child_nodes(n))
+        _LOCALS_CACHE[k] = frozenset(out - glob)
+    return _LOCALS_CACHE[k]
+
+
 class _Return(Exception):
     def __init__(self, v):
         self.v = v
@@ -467,6 +496,7 @@ class Interp:
         a = node.args
         names = [x.arg for x in a.posonlyargs + a.args]
         env: Dict[str, Any] = {}
+        env["#locals"] = _local_stores(node)
         pos = list(args)
         if self_obj is not None and not _is_static(node):
             pos = [self_obj] + pos
@@ -712,6 +742,11 @@ class Interp:
         if isinstance(e, ast.Name):
             if e.id in env:
                 return env[e.id]
+            loc = env.get("#locals") if hasattr(env, "get") else None
+            if loc and e.id in loc:
+                # a local of the running function read before any
+                # assignment on this path
+                raise Raised(f"UnboundLocalError: {e.id}")
             return self.global_name(e.id, module, e)
         if isinstance(e, ast.BinOp):
             return binop(e.op, self.eval(e.left, env, module),
